@@ -440,8 +440,8 @@ static struct rnode *rnode_parse(char **pat)
 	if ((*pat)[0] != '|')
 		return c1;
 	++*pat;
-	c2 = rnode_parse(pat);
-	return c2 ? rnode_make(RN_ALT, c1, c2) : c1;
+	c2 = rnode_parse(pat);	/* may be empty, like c1 */
+	return rnode_make(RN_ALT, c1, c2);
 }
 
 static int rnode_count(struct rnode *rnode)
